@@ -636,8 +636,8 @@ func findFunc(f *ast.File, name string) *ast.FuncDecl {
 }
 
 func main() {
-	if len(os.Args) != 4 {
-		fmt.Fprintln(os.Stderr, "usage: go2lean <repo> <targets.json> <out.lean>")
+	if len(os.Args) != 4 && len(os.Args) != 5 {
+		fmt.Fprintln(os.Stderr, "usage: go2lean <repo> <targets.json> <out.lean> [namespace]")
 		os.Exit(2)
 	}
 	repo, cfgPath, outPath := os.Args[1], os.Args[2], os.Args[3]
@@ -653,7 +653,11 @@ func main() {
 	}
 	var out strings.Builder
 	out.WriteString("-- GENERATED by tools/go2lean from /repo's working tree. Do not edit.\n")
-	out.WriteString("import F3.Model.GoInt\nnamespace F3.Gen\nopen F3.GoInt\n\n")
+	ns := "F3.Gen"
+	if len(os.Args) == 5 {
+		ns = os.Args[4]
+	}
+	out.WriteString("import F3.Model.GoInt\nnamespace " + ns + "\nopen F3.GoInt\n\n")
 	funcs := map[string]string{}
 	var errs []string
 	for _, t := range cfg.Targets {
@@ -805,7 +809,7 @@ func main() {
 			return true
 		})
 	}
-	out.WriteString("\n]\n\nend F3.Gen\n")
+	out.WriteString("\n]\n\nend " + ns + "\n")
 	if len(errs) > 0 {
 		for _, e := range errs {
 			fmt.Fprintln(os.Stderr, "translator obligation broken:", e)
